@@ -9,7 +9,7 @@ Open Scope N_scope.
    writes, stack/heap growth, LDC, nested calls and returns), then the matching return:
    all registers restored except $cgas $ggas $ret $retl $hp, $pc = call pc + 4, frame stack
    (depth) as before, every byte of [vm_hi, caller's $sp) unchanged, $hp not above its old value *)
-Theorem C34_call_return :
+Theorem C34_roundtrip :
   forall (s0 : vstate) (to asset : bytes) (a b : N) (code : bytes) (amount gas_fwd cgas1 ggas1 : N)
          (s1 : vstate) (ops : list cop) (s2 : vstate),
     Inv s0 ->
@@ -23,7 +23,31 @@ Theorem C34_call_return :
     v_regs s2 REG_HP <= v_regs s0 REG_HP /\
     Inv s2.
 Proof. exact call_return_preserves_caller. Qed.
-Print Assumptions C34_call_return.
+Print Assumptions C34_roundtrip.
+
+(* the two other readings of C34_roundtrip asked for by the property text, stated on their own *)
+Theorem C34_stack_unchanged :
+  forall (s0 : vstate) (to asset : bytes) (a b : N) (code : bytes) (amount gas_fwd cgas1 ggas1 : N)
+         (s1 : vstate) (ops : list cop) (s2 : vstate),
+    Inv s0 ->
+    step s0 (CCall to asset a b code amount gas_fwd cgas1 ggas1) = Some s1 ->
+    run_above (depth s0) s1 ops = Some s2 ->
+    depth s2 = depth s0 ->
+    forall x, v_vm_hi s0 <= x < v_regs s0 REG_SP -> m_data (v_mem s2) x = m_data (v_mem s0) x.
+Proof. exact call_return_stack_unchanged. Qed.
+Print Assumptions C34_stack_unchanged.
+
+Theorem C34_depth :
+  forall (s0 : vstate) (to asset : bytes) (a b : N) (code : bytes) (amount gas_fwd cgas1 ggas1 : N)
+         (s1 : vstate) (ops : list cop) (s2 : vstate),
+    Inv s0 ->
+    step s0 (CCall to asset a b code amount gas_fwd cgas1 ggas1) = Some s1 ->
+    run_above (depth s0) s1 ops = Some s2 ->
+    depth s1 = S (depth s0) /\
+    (depth s2 = depth s0 -> v_frames s2 = v_frames s0) /\
+    (depth s0 <= depth s2)%nat.
+Proof. exact call_return_depth. Qed.
+Print Assumptions C34_depth.
 
 (* return_from_context: which registers come from the frame and which stay *)
 Theorem C34_ret_restores :
